@@ -17,6 +17,18 @@ def handle : Handler
         some (if hs.isEmpty then "-" else ",".intercalate (hs.map fun (n, h) => n ++ "=" ++ h))
       | _ => some "not-a-struct"
     | .error e => some ("bad-schema " ++ e)
+  | "body", [which, ty, json] =>
+    match parseSchema json with
+    | .ok S => match S.find ty with
+      | some (.struct d) =>
+        let lines := match which with
+          | "serialize" => serializeBody S d
+          | "_serialize" => serializeFieldLines S d
+          | "size" => sizeBody S d
+          | _ => []
+        some (Driver.strOut ("\n".intercalate lines))
+      | _ => some "not-a-struct"
+    | .error e => some ("bad-schema " ++ e)
   | _, _ => none
 
 def main : IO Unit := Driver.run handle
